@@ -1130,6 +1130,15 @@ Proof.
   repeat split.
 Qed.
 
+(* after a rotation a future generation exists again: drops recorded from then on go into both generations
+   and survive the next rotation (dropped_until_rotation with its second alternative) *)
+Theorem rotation_creates_a_future k :
+  chk_rotates k = true -> fut (chk_maintain k) = Some (new_gen slots_of (capa k)).
+Proof.
+  intros H. unfold chk_rotates in H. unfold SentCache.chk_maintain. rewrite H. cbn [fut].
+  replace rotation_creates_future with true by reflexivity. reflexivity.
+Qed.
+
 (* the recent-drop set makes CheckSpan answer "dropped" immediately, before any drain *)
 Theorem checkspan_recent c x ann :
   snd (step (fst (step c (RecDropped x))) (ChkSpan x ann)) = ADropped.
